@@ -98,7 +98,6 @@ class Scope:
 
 class Extractor:
     def __init__(self, env, templates):
-        import jinja2
         from jinja2 import nodes
 
         self.env = env
@@ -721,34 +720,8 @@ class Runner:
         self.finalized = []
         self.gates = 0
         self.chunks = 0
-        self.data = dict(data)
+        self.data = dict(data)   # extra render variables (the corpus keeps its data in env.globals)
         self.output = None
-
-    # data handed to the template
-    async def f(self, *a):
-        r = await _Gate(0)
-        if r == "fault":
-            raise DataFault("injected")
-        return "v"
-
-    class AIter:
-        """An async iterable that is *not* an async generator (user data)."""
-
-        def __init__(self, runner, items):
-            self.r, self.items = runner, list(items)
-
-        def __aiter__(self):
-            self.i = 0
-            return self
-
-        async def __anext__(self):
-            r = await _Gate(1)
-            if r == "fault":
-                raise DataFault("injected")
-            if self.i >= len(self.items):
-                raise StopAsyncIteration
-            self.i += 1
-            return self.items[self.i - 1]
 
     def state(self, ag):
         if ag.ag_frame is None:
@@ -773,8 +746,21 @@ class Runner:
         return out
 
     def others(self):
-        return [(ag.ag_code.co_filename.rsplit("/", 1)[-1] + ":" + ag.ag_code.co_qualname, self.state(ag))
-                for ag in self.reg if self.short(ag) is None]
+        """Async generators that are not part of the modelled structure: (origin, name, state).
+        origin 'engine' = jinja2's own code outside filters.py (e.g. async_utils, runtime): created for
+        the render, judged like the template's generators; 'filter' = jinja2/filters.py; 'user' = data."""
+        out = []
+        for ag in self.reg:
+            if self.short(ag) is not None:
+                continue
+            fn = ag.ag_code.co_filename.replace("\\", "/")
+            name = fn.rsplit("/", 1)[-1] + ":" + ag.ag_code.co_qualname
+            if "/jinja2/" in fn:
+                origin = "filter" if fn.endswith("/filters.py") else "engine"
+            else:
+                origin = "user"
+            out.append((origin, name, self.state(ag)))
+        return out
 
     async def _consume(self):
         ag = self.template.generate_async(**self.data)
